@@ -300,7 +300,12 @@ class DirMigrations(Migrations):
         return [dict(classes=[a, b, c], files=files, base={'file': 'cfg/main.json'}, context=None,
                      compute=[0, 1, 2, 3, 4, 5], drys=[True, False, False]),
                 dict(classes=[a, b, c], files={'cfg/one.json': {'tasks': ['@M.*'], 'x': 1}}, base={'file': 'cfg/one.json'},
-                     context=None, compute=[1, 2], drys=[False, False])]
+                     context=None, compute=[1, 2], drys=[False, False]),
+                # config files whose names contain dots (the name-mode result of a directory task is `<name>` without extension)
+                dict(classes=[a, b, c], files={'cfg/exp.v2.json': {'tasks': ['@M.*'], 'x': 1}}, base={'file': 'cfg/exp.v2.json'},
+                     context=None, compute=[0, 1, 2], drys=[True, False, False]),
+                dict(classes=[a, b, c], files={'cfg/part.v1.json': {'tasks': ['@M.*'], 'x': 2}, 'cfg/top.json': {'uses': 'cfg/part.v1.json as p'}},
+                     base={'file': 'cfg/top.json'}, context=None, compute=[0, 1, 2], drys=[False, False])]
 
     def gen(self, rng, tier):
         out = []
